@@ -17,7 +17,7 @@ import subprocess
 import sys
 
 VERIF = os.path.dirname(os.path.dirname(os.path.abspath(__file__)))
-WT = "/tmp/seedcheck"
+WT = os.environ.get("SEEDCHECK_WT", "/tmp/seedcheck")
 
 
 def sh(cmd, **kw):
@@ -29,6 +29,7 @@ def main():
     needs = ""
     suffix = ""
     thorough_props = [prop]
+    phase, quick_props, no_thorough = "both", "", False
     a = sys.argv[4:]
     i = 0
     while i < len(a):
@@ -38,6 +39,12 @@ def main():
             thorough_props = a[i + 1].split(","); i += 1
         elif a[i] == "--suffix":
             suffix = a[i + 1]; i += 1
+        elif a[i] == "--phase":  # confirm | check | both
+            phase = a[i + 1]; i += 1
+        elif a[i] == "--quick-props":
+            quick_props = a[i + 1]; i += 1
+        elif a[i] == "--no-thorough":
+            no_thorough = True
         i += 1
     sid = f"{prop}{var}{suffix}"
     patch = os.path.join(src, f"{var}.patch")
@@ -49,6 +56,21 @@ def main():
         if os.path.exists("/tmp/seed/base/target"):
             sh(f"cp -r /tmp/seed/base/target {WT}/target")
     sh(f"git -C {WT} checkout -q --detach $(git -C /repo rev-parse HEAD) && git -C {WT} checkout -- . && rm -f {WT}/tests/seed_demo_*.rs")
+    ran = []
+    state = os.path.join("/tmp", f"ingest_{sid}.json")
+    if phase == "check":
+        st = json.load(open(state))
+        ran, suite = st["ran"], st["suite"]
+    else:
+        ran, suite = confirm(sid, patch, demo)
+        json.dump({"ran": ran, "suite": suite}, open(state, "w"))
+        if phase == "confirm":
+            print(f"CONFIRMED {sid}")
+            return
+    finish(sid, prop, src, patch, demo, needs, suite, ran, thorough_props, quick_props, no_thorough)
+
+
+def confirm(sid, patch, demo):
     ran = []
     r = sh(f"git -C {WT} apply {patch}")
     if r.returncode != 0:
@@ -83,19 +105,23 @@ def main():
         sys.exit(f"REJECT {sid}: demonstration does not pass on the unchanged code ({oks}/3):\n{r.stdout}")
     ran.append("demonstration without change: passes 3/3 runs")
     sh(f"rm -f {WT}/tests/{tname}.rs; git -C {WT} checkout -- .")
+    return ran, suite
+
+
+def finish(sid, prop, src, patch, demo, needs, suite, ran, thorough_props, quick_props, no_thorough):
     # run the checks on /repo
     outdir = os.path.join(VERIF, "seeded", sid)
     os.makedirs(outdir, exist_ok=True)
     shutil.copy(patch, os.path.join(outdir, "patch.diff"))
     shutil.copy(demo, os.path.join(outdir, "demo.rs"))
     resq = os.path.join("/tmp", f"try_{sid}_quick.json")
-    r = sh(f"python3 {VERIF}/tools/try_seed.py {outdir}/patch.diff --tier quick --out {resq}")
+    r = sh(f"python3 {VERIF}/tools/try_seed.py {outdir}/patch.diff --tier quick {'--props ' + quick_props if quick_props else ''} --out {resq}")
     print(r.stdout[-3000:])
     q = json.load(open(resq))
     caught_q = q["caught_by"]
     mach = [p for p, v in q["checks"].items() if v["exit"] == 2]
     caught_t = []
-    if prop not in caught_q or any(p not in caught_q for p in thorough_props):
+    if not no_thorough and (prop not in caught_q or any(p not in caught_q for p in thorough_props)):
         todo = [p for p in thorough_props if p not in caught_q]
         if todo:
             rest = os.path.join("/tmp", f"try_{sid}_thorough.json")
@@ -113,6 +139,7 @@ def main():
         "needs": needs,
         "suite": suite,
         "ran": ran + [f"tools/try_seed.py patch.diff --tier quick  -> caught by {caught_q}"] + ([f"tools/try_seed.py patch.diff --tier thorough --props {thorough_props} -> caught by {caught_t}"] if caught_t or prop not in caught_q else []),
+        "quick_checks_run": sorted(q["checks"].keys()),
         "caught_by_quick": caught_q,
         "caught_by_thorough_only": caught_t,
         "machinery_errors_in": sorted(set(mach)),
